@@ -130,6 +130,11 @@ def forbidden_scan():
     return bad
 
 
+# Reals / Flocq: every definition of the binary32 model (Flocq's Bplus, Bmult, Bdiv carry proofs over the
+# standard library's axiomatised reals) pulls these four standard-library axioms into Print Assumptions
+REALS_AXIOMS = ("ClassicalDedekindReals.sig_forall_dec", "ClassicalDedekindReals.sig_not_dec",
+                "FunctionalExtensionality.functional_extensionality_dep", "Classical_Prop.classic")
+
 STD_AXIOMS = {
     # axioms declared by the standard library / installed libraries; allowed when named per theorem
     "ClassicalDedekindReals.sig_forall_dec", "ClassicalDedekindReals.sig_not_dec",
@@ -161,7 +166,9 @@ def coq_audit(pid, theorems, allowed=()):
             continue
         if cur is None:
             continue
-        m = re.match(r"^([A-Za-z_][\w.']*)\s*:", line)
+        if line.startswith("Axioms:") or line.startswith("Closed under") or not line.strip():
+            continue
+        m = re.match(r"^([A-Za-z_][\w.']*)", line)
         if m and not line.startswith(" "):
             by[cur].append(m.group(1))
     for t in theorems:
@@ -215,7 +222,7 @@ def build_harness(profile="checked"):
 
 
 def model(args, timeout=3600):
-    rc, out, err = run_out([DRIVER] + args, timeout=timeout)
+    rc, out, err = run_out(["sh", "-c", "ulimit -s unlimited 2>/dev/null; exec \"$0\" \"$@\"", DRIVER] + args, timeout=timeout)
     if rc != 0:
         raise RuntimeError("model driver failed (%d): %s %s" % (rc, args, err[-500:]))
     return out.split("\n")[:-1] if out.endswith("\n") else out.split("\n")
